@@ -387,6 +387,10 @@ void xop(string *a) {
       rec("XR " + a[1] + " " + (e ? "err:" + replace_string(replace_string(e, "\n", ""), " ", "_") : "arr:" + res));
     }
     break;
+  case "reload":  // reload <ob>: reload_object() - variables reset, create() again, heart beat off, call_outs dropped
+    o = ob_of(a[1]);
+    if (o) { rec("RELOAD " + wtag(o)); e = catch(reload_object(o)); rec("RELOADED " + (e ? "err" : "ok")); }
+    break;
   case "xreload": // xreload <ob>: destruct the blueprint, the next call loads it again (new program)
     o = find_object(a[1]);
     if (o) destruct(o);
@@ -707,7 +711,7 @@ void do_op(string op) {
   case "mk": case "put": case "cyc": case "uncyc": case "share": case "cov": case "covf": case "itv": case "drop": case "clearall": case "rb": case "many": case "use": case "memstat": case "rcall": case "dslot": case "dkids": case "pinfo": case "pdump":
     cop(a);
     break;
-  case "xco": case "xaco": case "xreload": case "comp": case "coinfo":
+  case "xco": case "xaco": case "xreload": case "comp": case "coinfo": case "reload":
     xop(a);
     break;
   case "uclone": case "uload": case "useteuid": case "uexport": case "uids": case "ucall": case "ucf": case "uvs": case "umclone":
